@@ -21,7 +21,16 @@ var Registry = map[string]func(*ev.Run){
 		r.Cov["rule"] = "(1) every ordered pair (S,T) of the depth-bounded type alphabets is one converter interface, generated in isolation by the real pipeline under every setting vector with <=k deviations; (2) struct pairs under every field-level deviation operator (renamed, re-cased, twins, nested, behind pointers, dropped, methods, unexported) x target variants x placements x <=2 field-setting lines; real outcome vs three-valued model verdict; states = judged (pair|scenario, settings) combinations, transitions = model rule applications; non-trivial = model plan is not a bare basic copy"
 	},
 	"C01": func(r *ev.Run) { runAllFamilies(r) },
-	"C02": RunRtPairs,
+	"C02": func(r *ev.Run) {
+		RunRtPairs(r)
+		// recursive shapes: every reachable struct graph with <=2 (3) named nodes and self-referential named container types
+		c := RunWorkers(r, "recrt", []string{pairTier(r)}, "")
+		r.Cov["recursive_graph_cases_executed"] = c["cases_executed"]
+		r.Cov["evaluations"] = r.Cov["evaluations"].(int) + c["calls"]
+		r.Cov["states"] = r.Cov["states"].(int) + c["cases_executed"]
+		r.Cov["transitions"] = r.Cov["transitions"].(int) + c["calls"]
+		r.Cov["distinct_nontrivial"] = r.Cov["distinct_nontrivial"].(int) + c["cases_executed"]
+	},
 	"C04": func(r *ev.Run) {
 		RunRtPairs(r)
 		// sharing must also not leak through generated sub-methods that a sibling method with skipCopySameType reuses
@@ -71,7 +80,7 @@ var Registry = map[string]func(*ev.Run){
 		RunScenarioFamily(r, "c14", len(C14Scenarios(pairTier(r))), "all ordered parameter lists of <=k distinct roles {source A, second source B, context by line, context by regex, update target, converter-typed} x all result lists of length <=r over {T, error, int, named error-like interface} for converter methods and goverter:variables function variables (named and unnamed parameters), and for the custom-function use sites extend / map|FUNC / default / struct-method source over {source, second source, context, converter} x results; an independent role classifier predicts accept/reject; accepted ones are generated by the CLI, must compile against the declared signature (parameter order) and are executed against the plan")
 	},
 	"C19": RunC19,
-	"C13": func(r *ev.Run) { RunPairs(r, pairTier(r)) },
+	"C13": RunC13,
 }
 
 var Workers = map[string]func(w *pool.W, shard, n int, args []string) error{
@@ -107,6 +116,20 @@ var Workers = map[string]func(w *pool.W, shard, n int, args []string) error{
 	"c14": func(w *pool.W, shard, n int, args []string) error {
 		return ScenarioWorker(w, shardOf(C14Scenarios(args[0]), shard, n), args[0], true)
 	},
+	"recrt": func(w *pool.W, shard, n int, args []string) error {
+		return ScenarioWorker(w, shardOf(RecScenarios(args[0]), shard, n), args[0], true)
+	},
+	"rec": func(w *pool.W, shard, n int, args []string) error {
+		skip := parseSkip(args[1])
+		var scs []*Scenario
+		for _, sc := range shardOf(RecScenarios(args[0]), shard, n) {
+			if !skip[sc.ID] {
+				scs = append(scs, sc)
+			}
+		}
+		return ScenarioWorker(w, scs, args[0], false)
+	},
+	"dir": func(w *pool.W, shard, n int, args []string) error { return DirWorker(w, shard, n, args[0], parseSkip(args[1])) },
 	"pairs": func(w *pool.W, shard, n int, args []string) error { return PairWorker(w, shard, n, args[0]) },
 }
 
@@ -148,7 +171,7 @@ func Replay(prop, path string) int {
 }
 
 // allFamilies are the scenario families whose CLI output is compiled (C01) and inspected (C18).
-var allFamilies = []string{"c05", "c06", "c07", "c08", "c10", "c11", "c12", "c14", "c04nested"}
+var allFamilies = []string{"c05", "c06", "c07", "c08", "c10", "c11", "c12", "c14", "c04nested", "recrt"}
 
 func runAllFamilies(r *ev.Run) {
 	RunRtPairs(r)
